@@ -298,6 +298,24 @@ func runC05(w *World, r *Report) {
 			r.Check(f.Exported(), "C05.channel-state", n.Obj().Name()+"."+name+" exported", f.Pos(), "visible to the serializer", "mutable channel state in an unexported field is silently dropped by the byte store")
 			r.Check(loaded[name], "C05.channel-state", n.Obj().Name()+".load copies "+name, load.Pos(), "restored from the loaded channel", "load does not restore "+name+": bookkeeping (skips / readiness / values) is lost on resume")
 		}
+		// … on every path: no success return of load is reachable without the copies (a channel that holds no value can
+		// still hold the record of a predecessor that delivered no data — a dependency-only edge, a branch, a skip)
+		{
+			var stores []ssa.Instruction
+			for _, fw := range fieldWrites(load) {
+				if fw.owner == n && fw.kind == "store" {
+					stores = append(stores, fw.in)
+				}
+			}
+			for _, st := range stores {
+				st := st
+				skip, wit := pathQuery{fn: load, goal: func(in ssa.Instruction) bool {
+					ret, ok := in.(*ssa.Return)
+					return ok && len(ret.Results) == 1 && isNilConst(ret.Results[0])
+				}, avoid: func(in ssa.Instruction) bool { return in == st }}.exists()
+				r.Check(!skip, "C05.channel-state", fmt.Sprintf("%s.load: the copy at %s is on every successful path", n.Obj().Name(), w.pos(st.Pos())), st.Pos(), "no nil-error return avoids it", "load can succeed without taking the saved bookkeeping over ("+wit+"): the resumed run forgets completions / skips recorded in a channel that held no value yet — a join waits for ever ('no tasks to execute') or a skipped node runs")
+			}
+		}
 	}
 
 	// what a checkpoint holds is channel STATE; what the compiled runner builds is the channel itself, configuration
